@@ -229,11 +229,74 @@ pub mod sync {
                 }
             }
         }
+        pub fn try_read(&self) -> TryLockResult<RwLockReadGuard<'_, T>> {
+            let id = self.id();
+            env().before_lock(id, false, false);
+            match self.inner.try_read() {
+                Ok(g) => {
+                    env().after_lock(id, false, true, false);
+                    Ok(RwLockReadGuard { inner: Some(g), id })
+                }
+                Err(TryLockError::Poisoned(p)) => {
+                    env().after_lock(id, false, true, true);
+                    Err(TryLockError::Poisoned(PoisonError::new(RwLockReadGuard {
+                        inner: Some(p.into_inner()),
+                        id,
+                    })))
+                }
+                Err(TryLockError::WouldBlock) => {
+                    env().after_lock(id, false, false, false);
+                    Err(TryLockError::WouldBlock)
+                }
+            }
+        }
+        pub fn try_write(&self) -> TryLockResult<RwLockWriteGuard<'_, T>> {
+            let id = self.id();
+            env().before_lock(id, true, false);
+            match self.inner.try_write() {
+                Ok(g) => {
+                    env().after_lock(id, true, true, false);
+                    Ok(RwLockWriteGuard { inner: Some(g), id })
+                }
+                Err(TryLockError::Poisoned(p)) => {
+                    env().after_lock(id, true, true, true);
+                    Err(TryLockError::Poisoned(PoisonError::new(RwLockWriteGuard {
+                        inner: Some(p.into_inner()),
+                        id,
+                    })))
+                }
+                Err(TryLockError::WouldBlock) => {
+                    env().after_lock(id, true, false, false);
+                    Err(TryLockError::WouldBlock)
+                }
+            }
+        }
         pub fn is_poisoned(&self) -> bool {
             self.inner.is_poisoned()
         }
         pub fn clear_poison(&self) {
             self.inner.clear_poison()
+        }
+        pub fn get_mut(&mut self) -> LockResult<&mut T> {
+            self.inner.get_mut()
+        }
+        pub fn into_inner(self) -> LockResult<T> {
+            self.inner.into_inner()
+        }
+    }
+    impl<T> From<T> for RwLock<T> {
+        fn from(t: T) -> Self {
+            Self::new(t)
+        }
+    }
+    impl<T: core::fmt::Debug> core::fmt::Debug for RwLockReadGuard<'_, T> {
+        fn fmt(&self, f: &mut core::fmt::Formatter<'_>) -> core::fmt::Result {
+            (**self).fmt(f)
+        }
+    }
+    impl<T: core::fmt::Debug> core::fmt::Debug for RwLockWriteGuard<'_, T> {
+        fn fmt(&self, f: &mut core::fmt::Formatter<'_>) -> core::fmt::Result {
+            (**self).fmt(f)
         }
     }
     impl<T> Deref for RwLockReadGuard<'_, T> {
